@@ -333,13 +333,16 @@ def _py():
     return os.path.join(VERIF, ".venv", "bin", "python")
 
 
-def replay_file(path, timeout=300):
+def replay_file(path, timeout=1200):
     """Run a replay artefact in a separate pristine interpreter; returns dict(result)."""
     envv = dict(os.environ)
     envv["PYTHONPATH"] = VERIF
     envv["VERIF_REPO"] = REPO
-    pr = subprocess.run([_py(), "-m", "harness.replay_main", path], cwd=VERIF, env=envv,
-                        capture_output=True, text=True, timeout=timeout)
+    try:
+        pr = subprocess.run([_py(), "-m", "harness.replay_main", path], cwd=VERIF, env=envv,
+                            capture_output=True, text=True, timeout=timeout)
+    except subprocess.TimeoutExpired:
+        return {"reproduced": False, "error": "replay timed out after %ds" % timeout}
     out = pr.stdout.strip().splitlines()
     try:
         return json.loads(out[-1])
